@@ -19,8 +19,8 @@ from ..harness import Violation
 LEVEL = "exploration"
 RULE = (
     "2-4 concurrent tasks on one shared Panoptica_Aggregator, each evaluate(subject), make_statistic() or a submission that raises (arrays of different shape, own name), subject names "
-    "drawn from a pool of 3 so that collisions are frequent, 0-1 subjects recorded sequentially beforehand; tasks run as "
-    "threads or as forked processes. Every lock acquire/release, file open/close, remove and the middle of every row "
+    "drawn from a pool of 3 (one of three name sets, two of them numeric-looking: 001, 1e3, 07, 7.0 ...) so that collisions are frequent, 0-1 subjects recorded sequentially beforehand; tasks run as "
+    "threads, as forked processes, or as forked processes that each work on their own pickled copy of an aggregator built by a process they were not forked from (long-lived pool workers; the copy is dropped and collected when the task is done). Every lock acquire/release, file open/close, remove and the middle of every row "
     "write is a scheduling point of a cooperative scheduler that runs exactly one task at a time; the interleaving is "
     "the generated schedule (free choice lists of <=200 integers, or priority orders with 0-4 preemptions placed at "
     "arbitrary decision indices), so every run is deterministic and replayable. In addition ALL interleavings of "
